@@ -274,6 +274,34 @@ func genHist(seed uint64, prop, tier string, audit bool, mode string) *Plan {
 	if g.Chance(0.6) {
 		p.Ops = append(p.Ops, Op{K: "fresh", Reg: g.Intn(len(hg.mregs))})
 	}
+	if mode == "clock" && g.Chance(0.3) && len(p.Objects) < 9 && len(p.Cfgs) < 6 {
+		// the one computation whose length the user sets: a key that Fermat's method factors only after many
+		// rounds, under a configuration that grants just enough of them. Whatever limits a computation by the
+		// time it takes shows here (the run's timers may fire early)
+		var slow []int
+		for i, e := range fermatPool {
+			if e.K >= 999 {
+				slow = append(slow, i)
+			}
+		}
+		if len(slow) > 0 {
+			wi := pick(g, slow)
+			synthForceWeakIdx = wi
+			o := synthWeakKeyCert(g, idx)
+			synthForceWeakIdx = -1
+			if o != nil {
+				p.Objects = append(p.Objects, *o)
+				p.Cfgs = append(p.Cfgs, CfgSpec{Class: "option", Text: fmt.Sprintf("[e_rsa_fermat_factorization]\nRounds = %d\n", fermatPool[wi].K+g.Range(0, 3)), Targets: []string{"e_rsa_fermat_factorization"}, Via: "string"})
+				c := len(p.Cfgs) - 1
+				if hg.ensureLoaded(c) {
+					p.Ops = append(p.Ops, Op{K: "setcfg", Reg: 0, Cfg: c})
+					hg.mregs[0].Cfg = c
+					p.Ops = append(p.Ops, Op{K: "lint", Obj: len(p.Objects) - 1, Reg: 0, Path: "ex"})
+					p.Knobs["long_computation"] = true
+				}
+			}
+		}
+	}
 	if mode == "clock" {
 		addClockJumps(g, meta, p)
 	}
@@ -395,6 +423,9 @@ func addClockJumps(g *RNG, meta *MetaTable, p *Plan) {
 		ops = append(ops, op)
 	}
 	p.Ops = ops
+	// the timers of the code under test belong to the simulation too: in most clock runs whatever is to
+	// take some time is over at once (a slow machine, a stopped process)
+	p.Knobs["timers_early"] = g.Chance(0.6)
 }
 
 func objectDateOf(o *ObjSpec) (t time.Time) {
